@@ -16,8 +16,8 @@ stref_t __CPROVER_uninterpreted_at_key(type_t, slist_t);
 #define get_state_id(stt_, S) g_init_ids[S]
 void init_states_foreach(fsm_t* self)
 __CPROVER_requires(__CPROVER_is_fresh(self, sizeof(*self)) && 1 <= nr_regions && nr_regions <= NR_CAP && 0 <= g_k && g_k < nr_regions)
-__CPROVER_assigns(__CPROVER_object_upto(self->m_states, sizeof(self->m_states)))                /*@ob C03.start-assigns-only-the-active-configuration */
-__CPROVER_ensures(self->m_states[g_k] == g_init_ids[g_k])                                        /*@ob C03.every-region-starts-in-its-initial-state */
+__CPROVER_assigns(__CPROVER_object_upto(self->m_states, sizeof(self->m_states)))                /*@ob C03,C02.start-assigns-only-the-active-configuration */
+__CPROVER_ensures(self->m_states[g_k] == g_init_ids[g_k])                                        /*@ob C03,C08.every-region-starts-in-its-initial-state */
 ;
 #endif
 
@@ -26,7 +26,7 @@ __CPROVER_ensures(self->m_states[g_k] == g_init_ids[g_k])                       
 void execute_entry(stref_t astate, event_t evt, fsm_t* fsm)
 __CPROVER_requires(0 <= g_entry_next && g_entry_next < nr_regions && !g_exc)
 __CPROVER_requires(astate == at_key(g_entry_next, fsm->m_substate_list))                         /*@ob C02,C03.initial-states-entered-in-region-order-each-once */
-__CPROVER_requires(EV_EQ_U(evt, g_evt))                                                          /*@ob C02.initial-entry-sees-the-start-event */
+__CPROVER_requires(EV_EQ_U(evt, g_evt))                                                          /*@ob C02,C18.initial-entry-sees-the-start-event */
 __CPROVER_assigns(g_entry_next, g_exc)
 __CPROVER_ensures(g_exc || g_entry_next == __CPROVER_old(g_entry_next) + 1)
 __CPROVER_ensures(g_exc ==> g_entry_next == __CPROVER_old(g_entry_next))
@@ -53,6 +53,6 @@ __CPROVER_requires(INREG(0) && INREG(1) && INREG(2) && INREG(3) && INREG(4) && I
 __CPROVER_requires(g_k_is_fork_target ? (0 <= g_tw && g_tw < g_ntargets && g_t_region[g_tw] == g_k && g_t_id[g_tw] == g_k_fork_id) : g_tw == -1)
 __CPROVER_requires(NOTK(0) && NOTK(1) && NOTK(2) && NOTK(3) && NOTK(4) && NOTK(5) && NOTK(6) && NOTK(7))             /* no other target lies in region g_k */
 __CPROVER_assigns(__CPROVER_object_upto(self->m_states, sizeof(self->m_states)))
-__CPROVER_ensures(self->m_states[g_k] == (g_k_is_fork_target ? g_k_fork_id : __CPROVER_old(self->m_states[g_k])))    /*@ob C09.fork-sets-exactly-the-named-regions */
+__CPROVER_ensures(self->m_states[g_k] == (g_k_is_fork_target ? g_k_fork_id : __CPROVER_old(self->m_states[g_k])))    /*@ob C09,C03,C08.fork-sets-exactly-the-named-regions */
 ;
 #endif
